@@ -95,6 +95,8 @@ func symbolPacket(sym string, seq uint64) gocbcore.SimPacket {
 		return docPacket("mutation", seq, txnPrefix+[]string{"abc", "client-record", "atr-1"}[seq%3], "after", 0)
 	case "Dres":
 		return docPacket("deletion", seq, reservedPrefix+"y", "after", 0)
+	case "Eres": // the expiry of a library document with a TTL (a member's heart-beat document)
+		return docPacket("expiration", seq, reservedPrefix+"g:instance:00000000-dead", "after", 0)
 	case "Mpart":
 		return docPacket("mutation", seq, "_connector:cbg", "after", 0)
 	case "Minfix": // an application key that merely CONTAINS a reserved prefix
